@@ -359,6 +359,21 @@ def run(ctx):
             if want and hash(a) != hash(b):
                 ctx.violation('hashing', 'generic', i, {'a': short(a), 'b': short(b)}, mech='hash:generic-parameters')
                 return
+        # ... also when the parameters were given in two steps (a partially applied alias: Pair[str, V], then [int])
+        TW = t.TypeVar('TW')
+        P2 = _types.new_class(f"GP{next(_serial)}", (env.PaneBase, t.Generic[TV, TW]), {},
+                              lambda ns: ns.update({'__annotations__': {'l': TV, 'r': TW}, '__module__': __name__}))
+        two_step, one_step, bare = P2[str, TW][int]('a', 1), P2[str, int]('a', 1), P2('a', 1)
+        again = G[TV][int](1)
+        ctx.count('two_step_subscript_pairs')
+        for a, b in ((two_step, one_step), (two_step, bare), (again, gi), (again, ga)):
+            facts = {'a == b': observe(lambda: a == b), 'b == a': observe(lambda: b == a), 'a <= b': observe(lambda: a <= b), 'a < b': observe(lambda: a < b),
+                     'hash equal': observe(lambda: hash(a) == hash(b))}
+            want = {'a == b': True, 'b == a': True, 'a <= b': True, 'a < b': False, 'hash equal': True}
+            got = {k_: (o.val if o.kind == 'value' else f"raises {type(o.exc).__name__}") for k_, o in facts.items()}
+            if got != want:
+                ctx.violation('equality', 'generic', i, {'a': f"{short(a)} made by subscripting twice", 'b': short(b), 'observed': short(got, 200)}, mech='eq:two-step-subscript-is-another-class')
+                return
         Sub = type(f"S{next(_serial)}", (G[int],), {'__annotations__': {}, '__module__': __name__})
         r = observe(lambda: G[int](5) == Sub(5))
         r2 = observe(lambda: Sub(5) == G[int](5))
